@@ -128,12 +128,22 @@ class Oracle:
         raise ValueError(v)
 
     def attr(self, name, v):
+        if v[0] == 'i' and name == 'real':
+            return v                              # (5).real == 5: an attribute of an attribute VALUE
         return self.objs[v[1]][1][name]
 
     def int_attr(self, name, v):
         return self.py(self.attr(name, v))
 
     def call(self, m, args, recv):
+        if m == 'count':                          # list.count / tuple.count: a method of a plain value
+            if recv[0] not in ('l', 't'):
+                raise ValueError(m)
+            return ('i', sum(1 for e in recv[1:] if self.py(e) == self.py(args[0])))
+        if m == 'upper':
+            if recv[0] != 's':
+                raise ValueError(m)
+            return ('s', (recv[1] if len(recv) > 1 else '').upper()) if (recv[1] if len(recv) > 1 else '') else ('s',)
         a = self.int_attr('a', recv)
         if m == 'gt':
             return ('b', 1 if a > self.py(args[0]) else 0)
@@ -154,6 +164,8 @@ class Oracle:
             return ('b', 1 if self.py(self.attr('b', args[0])) == self.py(self.attr('b', args[1])) else 0)
         if name == 'val_a':
             return self.attr('a', args[0])
+        if name == 'val_b':
+            return self.attr('b', args[0])
         raise ValueError(name)
 
     def term_val(self, t, asg):
@@ -242,7 +254,13 @@ class Oracle:
                 if all(self.holds(c, full) for c in (case.get('cond') or [])):
                     if fa and not all(all(self.holds(c, {**full, fa[0]: o}) for c in fa[1]) for o in self.dom(fa[0])):
                         continue
-                    if not all(all(self.holds(c, {**full, **dict(zip(us, uc))}) for c in cs)
+                    # a flatten node INSIDE a for_all's condition is existential: for every universal value SOME element
+                    # must satisfy the condition (the element is not one of the bindings for_all keeps)
+                    def fa_ok(us, cs, uc):
+                        b0 = {**full, **dict(zip(us, uc))}
+                        fl = [f for c in cs for f in cond_flats(c)]
+                        return any(all(self.holds(c, ext) for c in cs) for ext in self._extend(fl, b0))
+                    if not all(fa_ok(us, cs, uc)
                                for us, cs in fas for uc in itertools.product(*[self.dom(u) for u in us])):
                         continue
                     out.append(tuple(self.term_val(t, full) for t in case['sel']))
@@ -292,6 +310,8 @@ def term_flats(t):
         return []
     if k == 'subq':             # a sub-query as an operand (implementation-side form only)
         return [f for x in t[3:] for f in cond_flats(x)]
+    if k in ('fnv', 'fnvc'):    # a user predicate as a value (implementation-side form only)
+        return term_flats(t[2])
     raise ValueError(t)
 
 
@@ -330,6 +350,8 @@ def term_vars(t):
         return term_vars(t[2])
     if k == 'concat':
         return set()          # the operand's variable is aggregated away
+    if k in ('fnv', 'fnvc'):
+        return term_vars(t[2])
     if k == 'subq':
         own = {t[2]} if isinstance(t[2], int) else term_vars(t[2])
         return own.union(*[cond_vars(x) for x in t[3:]])
